@@ -466,6 +466,10 @@ func (c *AbstractVariantOperations) Lsh(
 	}
 
 	// Performs operation.
+	if value2.AsInteger() < 0 {
+		return nil, errors.NewBadRequestError("", "SHIFT_OUT_OF_RANGE", "Shift count cannot be negative")
+	}
+
 	switch value1.Type() {
 	case Integer:
 		result.SetAsInteger(value1.AsInteger() << value2.AsInteger())
@@ -503,6 +507,10 @@ func (c *AbstractVariantOperations) Rsh(
 	}
 
 	// Performs operation.
+	if value2.AsInteger() < 0 {
+		return nil, errors.NewBadRequestError("", "SHIFT_OUT_OF_RANGE", "Shift count cannot be negative")
+	}
+
 	switch value1.Type() {
 	case Integer:
 		result.SetAsInteger(value1.AsInteger() >> value2.AsInteger())
